@@ -176,6 +176,7 @@ PROPS = {
              "Location.__str__, the parser's node locations, the compiler's AST passes up to UpdateLocations (compound assignments are rewritten before it) and the text of "
              "the redeclaration diagnostic (captured by the hook). spec/Lexer.tla scans every text over a 12-character alphabet up to length 4/5 and a list of probe "
              "texts; the real scanner's tokens must lie at the offsets and on the lines where their characters are (verdict); a different split into tokens is a "
-             "conformance note.",
+             "conformance note. spec/Grammar.tla (statement and module level recognizer) is compared with the real parser on all short token sequences and on mutated "
+             "derivations - notes only.",
         note=_TRUST + "Only line breaks matter for positions, so all other characters are one class; the diagnostic may name the identifier or identifier plus initialiser."),
 }
